@@ -170,6 +170,7 @@ structure GoodH (w : W) (h : Hist) (k : Nat) (fs : FS) : Prop where
   fresh : ∀ s ∈ fs.dirs, s < nextSuffix fs
   untouched : ∀ s, s ∉ fs.dirs → fs.seg s = {}
   prov : ∀ f, (f < w.nf ∨ f ∈ completedFrom w h k) → ∃ p ∈ metas fs, f ∈ p.2 ∧ f ∈ segVisible (fs.seg p.1)
+  provAll : ∀ p ∈ metas fs, ∀ f ∈ segVisible (fs.seg p.1), f ∈ p.2
 
 theorem crashFrom_good : ∀ (h : Hist) (sl : List (Nat × List Nat)) (w : W) (fs : FS) (k : Nat),
     Inv sl w fs → GoodH w h k (crashFrom w fs h k) := by
@@ -178,7 +179,7 @@ theorem crashFrom_good : ∀ (h : Hist) (sl : List (Nat × List Nat)) (w : W) (f
   | nil =>
     intro sl w fs k I
     have G : Good w.nf none fs := good_inv I
-    refine ⟨G.nodup, G.torn, ?_, ?_, G.fresh, G.untouched, ?_⟩
+    refine ⟨G.nodup, G.torn, ?_, ?_, G.fresh, G.untouched, ?_, G.provAll⟩
     · intro f hf
       rcases G.sound f hf with h | h
       · exact Or.inl h
@@ -220,7 +221,7 @@ theorem crashFrom_good : ∀ (h : Hist) (sl : List (Nat × List Nat)) (w : W) (f
               left; show f < w.nf + 1; omega
             | ro => cases h2
           · right; exact h2
-      refine ⟨G.nodup, G.torn, ?_, ?_, G.fresh, G.untouched, fun f hf => G.prov f (hstep f hf)⟩
+      refine ⟨G.nodup, G.torn, ?_, ?_, G.fresh, G.untouched, fun f hf => G.prov f (hstep f hf), G.provAll⟩
       · intro f hf
         rw [hcomp, hinf]
         rcases G.sound f hf with h1 | h1 | h1
@@ -262,7 +263,7 @@ theorem crashFrom_good : ∀ (h : Hist) (sl : List (Nat × List Nat)) (w : W) (f
         have hinf : inflightFrom w (Cmd.fl ws :: h) k = if 0 < k then some w.nf else none := by
           simp only [inflightFrom, if_neg hk]
         have G := flush_prefix I ws k hk'
-        refine ⟨G.nodup, G.torn, ?_, ?_, G.fresh, G.untouched, ?_⟩
+        refine ⟨G.nodup, G.torn, ?_, ?_, G.fresh, G.untouched, ?_, G.provAll⟩
         · intro f hf
           rcases G.sound f hf with h1 | h1
           · exact Or.inl h1
@@ -281,7 +282,7 @@ theorem crashFrom_good : ∀ (h : Hist) (sl : List (Nat × List Nat)) (w : W) (f
         have hinf : inflightFrom w (Cmd.ro :: h) k = none := by
           simp only [inflightFrom, if_neg hk]
         have G := rotate_prefix I k hk'
-        refine ⟨G.nodup, G.torn, ?_, ?_, G.fresh, G.untouched, ?_⟩
+        refine ⟨G.nodup, G.torn, ?_, ?_, G.fresh, G.untouched, ?_, G.provAll⟩
         · intro f hf
           rcases G.sound f hf with h1 | h1
           · exact Or.inl h1
@@ -390,5 +391,25 @@ theorem crashAfter_meta (h : Hist) (k : Nat) :
     rw [← hfs] at G
     intro f hf
     exact G.prov f (Or.inr hf)
+
+/-- … and EVERY block a restart serves, at every cut `k` of every history, is one its segment's record was built from -/
+theorem crashAfter_provAll (h : Hist) (k : Nat) :
+    ∀ p ∈ metas (crashAfter h k), ∀ f ∈ segVisible ((crashAfter h k).seg p.1), f ∈ p.2 := by
+  by_cases hk : k < 3
+  · have hfs : crashAfter h k = run {} ((openSteps 0).take k) := by
+      show run {} ((openSteps 0 ++ stepsFrom {} h).take k) = _
+      rw [List.take_append]
+      have : k - (openSteps 0).length = 0 := by simp [openSteps]; omega
+      rw [this, List.take_zero, List.append_nil]
+    have G : Good 0 none (crashAfter h k) := hfs ▸ open_prefix preopen_empty k hk
+    exact G.provAll
+  · have hfs : crashAfter h k = crashFrom {} (run {} (openSteps 0)) h (k - 3) := by
+      show run {} ((openSteps 0 ++ stepsFrom {} h).take k) = _
+      rw [List.take_append, run_append, List.take_of_length_le (by simp [openSteps]; omega)]
+      exact run_take_stepsFrom h {} _ _
+    have I : Inv [] ({} : W) (run {} (openSteps 0)) := inv_open preopen_empty
+    have G := crashFrom_good h [] {} _ (k - 3) I
+    rw [← hfs] at G
+    exact G.provAll
 
 end SigModel.Lemmas.C07
